@@ -410,6 +410,16 @@ theorem dc_one_body_one_body_sound (i j k l : Nat) (coef : GQ) (prior : List (Li
       den (phiF s u) prior + pairComm s u [(i, 1), (j, 0)] [(k, 1), (l, 0)] coef :=
   dcOneOne_sound i j k l coef prior hne s u
 
+/-- `dc_commutator_sound` for ONE-BODY operators (hopping / number Hamiltonians), complete: if every
+term of `A` and of `B` is a one-body term `i^ j`, then for every `prior_terms` every matrix element of
+`commutator_ordered_diagonal_coulomb_with_two_body_operator(A, B, prior)` is
+`⟨u| prior |s⟩ + Σ_{a ∈ A} Σ_{b ∈ B} c_a c_b ⟨u| a b - b a |s⟩` (main double loop included). -/
+theorem dc_commutator_one_body_sound (tol : Rat) (A B prior : List (List (Nat × Nat) × GQ))
+    (hA : ∀ e ∈ A, OneBody e.1) (hB : ∀ e ∈ B, OneBody e.1) (s u : Nat) :
+    den (phiF s u) (dcCommutator tol A B prior) =
+      A.foldl (fun acc e => commRow s u e.1 e.2 B acc) (den (phiF s u) prior) :=
+  dcCommutator_oneBody tol s u A B hA hB prior
+
 example : dcOneOne [(2, 1), (1, 0)] [(1, 1), (0, 0)] ⟨3, 0⟩ [] = [([(2, 1), (0, 0)], ⟨0 + 3, 0 + 0⟩)] := by decide +kernel
 
 end OFV.C07
